@@ -90,6 +90,7 @@ DEFAULT_PROFILE = {
     "rich_intrinsics": False,  # SIGN, 3-argument MIN/MAX, mask=, dim=, MATMUL
     "dep_index": 0,            # percent: subscripts from dependence templates
     "extra_int_scalars": (),   # additional integer inout scalars (names)
+    "full_loops": 0,           # percent: DO bounds = full extent of an array
 }
 
 
@@ -140,6 +141,13 @@ class Prog:
         self.inputs = []            # list of dict name -> value / list
         self.nstmts = 0
         self.module_vars = []
+        # raw extras (vlib/gen_decls.py): module specification lines, extra
+        # local declarations of the routine under test, text of modules
+        # that must precede this one, USE lines of the routine's module
+        self.spec_lines = []
+        self.use_lines = []
+        self.local_decl_lines = []
+        self.pre_modules = []
 
     # ---- names --------------------------------------------------------
     @property
@@ -163,6 +171,7 @@ class Prog:
             out.append("  " + var.decl())
         for var in self.locals:
             out.append("  " + var.decl(intent=False))
+        out.extend("  " + ln for ln in self.local_decl_lines)
         out.extend("  " + ln for ln in self.body)
         out.append(f"end subroutine {self.subname}")
         return out
@@ -192,9 +201,13 @@ class Prog:
 
     @property
     def module_source(self):
-        out = [f"module {self.modname}", "  implicit none"]
+        out = list(self.pre_modules)
+        out.append(f"module {self.modname}")
+        out.extend("  " + ln for ln in self.use_lines)
+        out.append("  implicit none")
         for var in self.module_vars:
             out.append("  " + var.decl(intent=False))
+        out.extend("  " + ln for ln in self.spec_lines)
         out.append("contains")
         for ln in self.routine_lines():
             out.append("  " + ln)
@@ -924,6 +937,13 @@ class Gen:
 
     def loop_header(self, var):
         """Draw loop bounds; returns (header text, (lo, hi) or None)."""
+        if self.prof.get("full_loops") and \
+                self.int(1, 100) <= self.prof["full_loops"]:
+            # literal bounds equal to the full extent of a pool array
+            # dimension (so that `a(i) = ...` overwrites the whole array)
+            lo, hi = self.pick([(1, 6), (1, 6), (1, 6), (0, 7), (1, 5),
+                                (1, 3), (2, 4), (0, 5)])
+            return f"do {var.name} = {lo}, {hi}", (lo, hi)
         step = self.weighted([(10, 1), (2, 2), (1, 3), (3, -1), (1, -2)])
         ins = [v for v in self.scalars("int") if v.role == "in" and v.rng]
 
